@@ -145,7 +145,9 @@ func (r *Response) send_all(buf string) {
 
 //Error set status_code
 func (r *Response) Error(code int) {
-	r.con.set_status_code(code)
+	// set_status_code only assigns while the code is still 0, and a new
+	// connection starts at 200: the handler's status has to be assigned.
+	r.con.status_code = code
 }
 
 //GetCon get
